@@ -345,6 +345,13 @@ func RunWorker(id, tier string, shard, nshard int, out string) int {
 	}
 	debug.SetGCPercent(800)
 	c := &Ctx{Check: ch, Tier: tier, Shard: shard, NShard: nshard, Res: newResult()}
+	// Hostile configuration: the library must not depend on the process's local time zone. Odd
+	// shards run with time.Local five and a half hours east of UTC, even shards with UTC.
+	if shard%2 == 1 {
+		time.Local = time.FixedZone("VERIF+0530", 19800)
+	} else {
+		time.Local = time.UTC
+	}
 	progressFile := out + ".progress"
 	stop := make(chan struct{})
 	go c.watchdog(progressFile, stop)
